@@ -3,10 +3,12 @@ package c05
 
 import (
 	"bytes"
+	"context"
 	"encoding/json"
 	"fmt"
 	"runtime"
 	"sync"
+	"sync/atomic"
 	"testing"
 	"time"
 
@@ -36,6 +38,8 @@ type Req struct {
 	ServerMID bool   `json:"serverMid"` // take the MID the server itself used last, if it is not one of ours
 	Beh       string `json:"beh"`       // piggy | none | separate | slow
 	TokLen    int    `json:"toklen"`
+	// Code of the reply the handler produces (0 = 2.05): a failure reply is a reply like any other
+	Code int `json:"code,omitempty"`
 }
 
 type Step struct {
@@ -71,6 +75,9 @@ func token(j, n int) []byte {
 	return t
 }
 
+// traceWire, if set (TestTrace), sees the whole wire log of a scenario.
+var traceWire func(dir int, at string, data []byte)
+
 func Exec(t *testing.T, sc Scenario, shard int, r *evid.Run) (fail *evid.Failure) {
 	var hlog []invocation
 	var copies []copyRec
@@ -82,11 +89,12 @@ func Exec(t *testing.T, sc Scenario, shard int, r *evid.Run) (fail *evid.Failure
 		link := memnet.NewPacketLink(memnet.LinkCfg{LatencyMs: 1})
 		gates := map[int]chan struct{}{}
 		for j, q := range sc.Reqs {
-			if q.Beh == "slow" {
+			if q.Beh == "slow" || q.Beh == "nested" {
 				gates[j] = make(chan struct{})
 			}
 		}
 		invs := map[int]int{}
+		var nestedOpen atomic.Int32 // handlers currently waiting for their nested request
 		start := time.Now()
 		handler := func(w *responsewriter.ResponseWriter[*udpClient.Conn], rq *pool.Message) {
 			body, _ := rq.ReadBody()
@@ -103,7 +111,11 @@ func Exec(t *testing.T, sc Scenario, shard int, r *evid.Run) (fail *evid.Failure
 				return
 			}
 			reply := func() {
-				_ = w.SetResponse(codes.Content, message.TextPlain, bytes.NewReader([]byte(fmt.Sprintf("R%d.%d", j, inv))),
+				code := codes.Content
+				if c := sc.Reqs[j].Code; c != 0 {
+					code = codes.Code(c)
+				}
+				_ = w.SetResponse(code, message.TextPlain, bytes.NewReader([]byte(fmt.Sprintf("R%d.%d", j, inv))),
 					message.Option{ID: message.ETag, Value: []byte{0xE0, byte(j), byte(inv)}}, message.Option{ID: message.MaxAge, Value: []byte{30}})
 			}
 			switch sc.Reqs[j].Beh {
@@ -111,6 +123,17 @@ func Exec(t *testing.T, sc Scenario, shard int, r *evid.Run) (fail *evid.Failure
 				reply()
 			case "slow":
 				<-gates[j]
+				reply()
+			case "nested":
+				// the handler asks the peer something first: the receive loop is replaced meanwhile, so
+				// a duplicate of this request is processed by another goroutine while the handler waits
+				nestedOpen.Add(1)
+				ctx, cancel := context.WithTimeout(context.Background(), 60*time.Second)
+				if resp, err := w.Conn().Get(ctx, fmt.Sprintf("/nested/%d", j)); err == nil {
+					w.Conn().ReleaseMessage(resp)
+				}
+				cancel()
+				nestedOpen.Add(-1)
 				reply()
 			case "separate":
 				m := w.Conn().AcquireMessage(w.Conn().Context())
@@ -142,12 +165,81 @@ func Exec(t *testing.T, sc Scenario, shard int, r *evid.Run) (fail *evid.Failure
 				})))
 		}
 		srv := endpoints.UDP(link.A, uopts...)
+		// the peer answers the nested request of a handler as soon as that handler has been released:
+		// at once when the request is written after the release (Tap runs on the writer's goroutine),
+		// from the wire log otherwise
+		var nmu sync.Mutex
+		nestedAnswered := map[string]bool{} // "MID/token" of nested requests already answered
 		released := map[int]bool{}
+		nestedOf := func(data []byte) (refcodec.Msg, int, bool) {
+			m, ok := peer.ParseDatagram(data)
+			if !ok || m.Code != 1 {
+				return m, 0, false
+			}
+			var segs []string
+			for _, o := range m.Opts {
+				if o.Num == 11 {
+					segs = append(segs, string(o.Val))
+				}
+			}
+			var j int
+			if len(segs) != 2 || segs[0] != "nested" {
+				return m, 0, false
+			}
+			if _, err := fmt.Sscanf(segs[1], "%d", &j); err != nil {
+				return m, 0, false
+			}
+			return m, j, true
+		}
+		answerOne := func(m refcodec.Msg, j int) {
+			key := fmt.Sprintf("%d/%x", m.MID, m.Token)
+			nmu.Lock()
+			ok := released[j] && !nestedAnswered[key]
+			if ok {
+				nestedAnswered[key] = true
+			}
+			nmu.Unlock()
+			if ok {
+				link.A.Inject(peer.Datagram(refcodec.Msg{Type: peer.ACK, MID: m.MID, Code: 69, Token: m.Token, Payload: []byte("n")}))
+			}
+		}
+		link.A.Tap = func(data []byte) {
+			if m, j, ok := nestedOf(data); ok {
+				answerOne(m, j)
+			}
+		}
+		answerNested := func() bool {
+			for _, rec := range link.Log() {
+				if rec.Dir != 0 {
+					continue
+				}
+				if m, j, ok := nestedOf(rec.Data); ok {
+					answerOne(m, j)
+				}
+			}
+			return true
+		}
 		release := func(j int) {
-			if g, ok := gates[j]; ok && !released[j] {
-				released[j] = true
+			nmu.Lock()
+			was := released[j]
+			released[j] = true
+			nmu.Unlock()
+			if g, ok := gates[j]; ok && !was {
 				close(g)
 			}
+			answerNested()
+		}
+		isReleased := func(j int) bool { nmu.Lock(); defer nmu.Unlock(); return released[j] }
+		// drain: once every gate is open, let the handlers that wait for a nested request finish (a
+		// duplicate spinning on the per-ID mutex behind them keeps Wait() from returning)
+		drain := func() {
+			for i := 0; i < 400 && nestedOpen.Load() > 0; i++ {
+				for k := 0; k < 100; k++ {
+					runtime.Gosched()
+				}
+				answerNested()
+			}
+			bubble.Wait()
 		}
 		first := map[int]time.Duration{}
 		lastServerMID := -1
@@ -156,12 +248,22 @@ func Exec(t *testing.T, sc Scenario, shard int, r *evid.Run) (fail *evid.Failure
 			peerMIDs[q.MID] = true
 		}
 		settle := func() {
-			if sc.Mode == "gopool" {
-				// a copy may be blocked on a per-MID mutex behind a gated handler: mutex waits are not
-				// durable blocks, so Wait() could never return — yield instead
+			answerNested()
+			{
+				// a copy may be blocked on a per-MID mutex behind a gated handler (goroutine per message)
+				// or behind a handler that waits for its nested request (replaced loop): mutex waits are
+				// not durable blocks, so Wait() could never return — yield instead
 				pending := false
+				risky := sc.Mode == "gopool" // somebody may be spinning on a per-ID mutex
 				for j := range gates {
-					if _, seen := first[j]; seen && !released[j] {
+					if _, seen := first[j]; seen && sc.Reqs[j].Beh == "nested" {
+						risky = true
+					}
+				}
+				for j := range gates {
+					// any handler that is still held (also a gated one that merely occupies the loop in
+					// front of a released nested handler's answer) keeps such a spinner alive
+					if _, seen := first[j]; seen && !isReleased(j) && risky {
 						pending = true
 					}
 				}
@@ -214,7 +316,7 @@ func Exec(t *testing.T, sc Scenario, shard int, r *evid.Run) (fail *evid.Failure
 						release(j) // virtual time cannot advance while a copy spins on a mutex
 					}
 				}
-				bubble.Wait()
+				drain()
 				time.Sleep(time.Duration(st.Ms) * time.Millisecond)
 				settle()
 			case "tick":
@@ -224,7 +326,7 @@ func Exec(t *testing.T, sc Scenario, shard int, r *evid.Run) (fail *evid.Failure
 				for j := range gates {
 					release(j)
 				}
-				bubble.Wait()
+				drain()
 				f, ok := first[st.Req]
 				if !ok {
 					continue
@@ -254,10 +356,15 @@ func Exec(t *testing.T, sc Scenario, shard int, r *evid.Run) (fail *evid.Failure
 		for j := range gates {
 			release(j)
 		}
-		bubble.Wait()
+		drain()
 		time.Sleep(10 * time.Millisecond)
 		bubble.Wait()
 		wire = link.Log()
+		if traceWire != nil {
+			for _, rec := range wire {
+				traceWire(rec.Dir, fmt.Sprintf("%v #%d %s", rec.T, rec.N, rec.Fate), rec.Data)
+			}
+		}
 		_ = srv.Close()
 		bubble.Wait()
 	})
@@ -299,7 +406,7 @@ func Exec(t *testing.T, sc Scenario, shard int, r *evid.Run) (fail *evid.Failure
 				if m.Type == peer.ACK && m.MID == mid {
 					replies = append(replies, reply{rec.T, m})
 				}
-			} else if q.Beh == "piggy" || q.Beh == "slow" {
+			} else if q.Beh == "piggy" || q.Beh == "slow" || q.Beh == "nested" {
 				if bytes.Equal(m.Token, tok) && m.Code != 0 && len(tok) > 0 {
 					replies = append(replies, reply{rec.T, m})
 				}
@@ -314,7 +421,7 @@ func Exec(t *testing.T, sc Scenario, shard int, r *evid.Run) (fail *evid.Failure
 		if len(invsJ) == 0 {
 			return evid.Failf("dedup/fresh-request-not-executed", sc, "request %d (MID %d, type %d) was delivered %d time(s) but never reached the handler; server replies for it: %d", j, mid, q.Type, len(cs), len(replies))
 		}
-		deduped := q.Type == peer.CON || q.Beh == "piggy" || q.Beh == "slow"
+		deduped := q.Type == peer.CON || q.Beh == "piggy" || q.Beh == "slow" || q.Beh == "nested"
 		if !deduped {
 			continue // a NON request without a reply through the response writer may legitimately run again
 		}
@@ -424,7 +531,8 @@ func gen(t *rapid.T) Scenario {
 			Type:      rapid.IntRange(0, 1).Draw(t, "type"),
 			MID:       mids[j],
 			ServerMID: rapid.IntRange(0, 3).Draw(t, "servermid") == 0,
-			Beh:       rapid.SampledFrom([]string{"piggy", "piggy", "none", "separate", "slow"}).Draw(t, "beh"),
+			Beh:       rapid.SampledFrom([]string{"piggy", "piggy", "none", "separate", "slow", "nested"}).Draw(t, "beh"),
+			Code:      rapid.SampledFrom([]int{0, 0, 0, 68, 132, 160, 163, 165}).Draw(t, "code"),
 			TokLen:    rapid.SampledFrom([]int{1, 2, 4, 8}).Draw(t, "toklen"),
 		})
 	}
@@ -493,7 +601,7 @@ func TestCheck(t *testing.T) {
 		return f
 	})
 	r.Main(evid.Meta{
-		Rule:        "a server-side datagram connection on the in-memory network inside a synctest bubble; the scripted peer injects 1-4 requests (CON/NON, MIDs from sets that include 0/65535 and the MIDs the server itself just used), duplicates them back-to-back, interleaved and around the 247 s lifetime boundary (virtual clock), with handlers that answer piggy-backed, not at all, separately, or slowly behind a gate, processed by the default loop or a goroutine per message; oracle: a reference de-duplication table over the handler log and the wire log (at most one execution per lifetime epoch, every duplicate answered with the first reply's code/token/options/payload and the duplicate's MID, fresh again after the lifetime, unseen MIDs always executed). Non-trivial = at least one duplicate delivered; distinct by scenario. counter: a datagram connection sends non-confirmable messages of its own while the scripted peer sends confirmable requests whose message IDs are chosen relative to the last own ID seen on the wire (at the counter, inside and at the edge of the window in which the library moves its counter away, thirds and quarters of half the ID space, half the space away); oracle: no own message ID is given to two different messages within the scenario and the connection does not close itself; non-trivial = at least two peer IDs inside the window",
+		Rule:        "a server-side datagram connection on the in-memory network inside a synctest bubble; the scripted peer injects 1-4 requests (CON/NON, MIDs from sets that include 0/65535 and the MIDs the server itself just used), duplicates them back-to-back, interleaved and around the 247 s lifetime boundary (virtual clock), with handlers that answer piggy-backed (2.05, 2.04, 4.04 or a 5.xx failure), not at all, separately, slowly behind a gate, or only after a request of their own to the peer has been answered (the receive loop is replaced meanwhile), processed by the default loop or a goroutine per message; oracle: a reference de-duplication table over the handler log and the wire log (at most one execution per lifetime epoch, every duplicate answered with the first reply's code/token/options/payload and the duplicate's MID, fresh again after the lifetime, unseen MIDs always executed). Non-trivial = at least one duplicate delivered; distinct by scenario. counter: a datagram connection sends non-confirmable messages of its own while the scripted peer sends confirmable requests whose message IDs are chosen relative to the last own ID seen on the wire (at the counter, inside and at the edge of the window in which the library moves its counter away, thirds and quarters of half the ID space, half the space away); oracle: no own message ID is given to two different messages within the scenario and the connection does not close itself; non-trivial = at least two peer IDs inside the window",
 		Assumptions: []string{"'not again' is asserted only strictly before first arrival + 247 s, 'fresh again' only strictly after the first reply of the epoch + 247 s and a tick (replies to duplicates do not prolong the lifetime)", "a NON request answered by a separate message (not through the response writer) or not at all may be executed again", "goroutine interleavings inside the bubble are chosen by the Go runtime"},
 		Floor:       300,
 	}, eng, counterEngine(t, r))
